@@ -7,7 +7,7 @@ From CG Require Import Base.Prelude Model.Ast Model.Quote Spec.ShellDQ Proofs.Qu
 From CGgen Require Import Consts.
 
 (** For every shell, every string outside that shell's hazard class (ShellDQ.hazard: empty for
-    fish and zsh) and every continuation of the script, the constant reads back as exactly the
+    bash, fish and zsh) and every continuation of the script, the constant reads back as exactly the
     original string and the reader stops right after it: nothing is expanded (the reader would
     return None), nothing is cut, nothing of the rest is swallowed. *)
 Theorem C07_quote_roundtrip :
@@ -53,45 +53,21 @@ Check C07_zsh_total :
   forall s rest, read Zsh (append (make_string_constant Zsh s) rest) = Some (s, rest).
 Print Assumptions C07_zsh_total.
 
-(** bash: all strings without a backslash that stands before a double quote, a backtick, a
-    dollar, a backslash, a newline or the end of the string. *)
-Theorem C07_bash_outside_backslash_hazard :
-  forall s rest, has_backslash_hazard s = false ->
-    read Bash (append (make_string_constant Bash s) rest) = Some (s, rest).
-Proof. intros s rest H. apply quote_roundtrip; [apply admissible_bash_iff; exact H | reflexivity]. Qed.
-Check C07_bash_outside_backslash_hazard :
-  forall s rest, has_backslash_hazard s = false ->
-    read Bash (append (make_string_constant Bash s) rest) = Some (s, rest).
-Print Assumptions C07_bash_outside_backslash_hazard.
+(** bash: all strings (any bytes), since the backslash is escaped (fix 90236c3). *)
+Theorem C07_bash_total :
+  forall s rest, read Bash (append (make_string_constant Bash s) rest) = Some (s, rest).
+Proof. intros. apply quote_roundtrip; [apply admissible_bash | reflexivity]. Qed.
+Check C07_bash_total :
+  forall s rest, read Bash (append (make_string_constant Bash s) rest) = Some (s, rest).
+Print Assumptions C07_bash_total.
 
-(** KNOWN FINDING (bash.rs make_string_constant does not escape the backslash).  The hazard class
-    is exact -- every hazardous pair fails to read back -- and here are the four faces of it for
-    literals the grammar admits (a-backslash, backslash-dollar-x, two backslashes, backslash-DQ-x):
-      - trailing backslash: the closing quote is escaped, the string swallows the script;
-      - backslash before dollar: an expansion starts;
-      - two backslashes: one is lost;
-      - backslash before a double quote: the string ends early. *)
-Theorem C07_refuted_bash_backslash :
-  (forall c o, hazard Bash c o = true -> pair_ok Bash c o = false)
-  /\ read Bash (append (make_string_constant Bash "a\") ")") = None
-  /\ read Bash (append (make_string_constant Bash "\$x") ")") = None
-  /\ read Bash (append (make_string_constant Bash "\\") ")") = Some ("\", ")")
-  /\ read Bash (append (make_string_constant Bash "\""x") ")") = Some ("\", "x"")").
-Proof.
-  split.
-  - intros c o H. pose proof hazards_exact_bash as E. unfold hazards_exact in E.
-    rewrite forallb_forall in E. specialize (E c (all_bytes_complete c)).
-    rewrite forallb_forall in E. specialize (E o (all_followers_complete o)).
-    rewrite H in E. cbn in E. apply negb_true_iff in E. exact E.
-  - vm_compute. repeat split.
-Qed.
-Check C07_refuted_bash_backslash :
-  (forall c o, hazard Bash c o = true -> pair_ok Bash c o = false)
-  /\ read Bash (append (make_string_constant Bash "a\") ")") = None
-  /\ read Bash (append (make_string_constant Bash "\$x") ")") = None
-  /\ read Bash (append (make_string_constant Bash "\\") ")") = Some ("\", ")")
-  /\ read Bash (append (make_string_constant Bash "\""x") ")") = Some ("\", "x"")").
-Print Assumptions C07_refuted_bash_backslash.
+(** Regression (formerly C07_refuted_bash_backslash): the four faces of the old defect -- trailing
+    backslash, backslash before dollar, two backslashes, backslash before a double quote -- read back. *)
+Example ex_C07_bash_backslash_regression :
+  map (fun s => read Bash (append (make_string_constant Bash s) ")")) ["a\"; "\$x"; "\\"; "\""x"]
+  = [Some ("a\", ")"); Some ("\$x", ")"); Some ("\\", ")"); Some ("\""x", ")")].
+Proof. vm_compute. reflexivity. Qed.
+Print Assumptions ex_C07_bash_backslash_regression.
 
 (** KNOWN FINDING (pwsh.rs does not escape U+201C/U+201D/U+201E, which PowerShell's tokenizer
     treats as double quotes): the description [a(U+201D)b] is cut after [a]. *)
